@@ -90,6 +90,15 @@ func randMarkerStruct(r *rng, maxFields int, withMarker bool) reflect.Type {
 		}
 		sf = append(sf, f)
 	}
+	if r.chance(1, 8) {
+		// an ordinary (named, not embedded) field that happens to have the marker's type: a value like any other
+		f := reflect.StructField{Name: "Marker", Type: markerType}
+		if t := randTag(r); t != "" && r.chance(1, 2) {
+			f.Tag = reflect.StructTag(fmt.Sprintf(`argmapper:"%s"`, t))
+		}
+		at := r.intn(len(sf) + 1)
+		sf = append(sf[:at], append([]reflect.StructField{f}, sf[at:]...)...)
+	}
 	if withMarker {
 		m := reflect.StructField{Name: "Struct", Type: markerType, Anonymous: true}
 		// reflect.StructOf only supports an embedded type with methods as the first field;
@@ -229,6 +238,27 @@ func genSig(w *bufio.Writer, r *rng, id, size int) {
 	case k == 1:
 		f = nil
 		fmt.Fprintf(w, "nonfunc nil\n")
+	case k == 2:
+		// other non-function values: a pointer to a function variable (nil or not), a struct, a pointer to one
+		fv := func(a int) int { return a }
+		var nilfn func(int) int
+		switch r.intn(5) {
+		case 0:
+			f = &fv
+			fmt.Fprintf(w, "nonfunc funcptr\n")
+		case 1:
+			f = &nilfn
+			fmt.Fprintf(w, "nonfunc nilfuncptr\n")
+		case 2:
+			f = staticNoMarker{}
+			fmt.Fprintf(w, "nonfunc struct\n")
+		case 3:
+			f = &staticA{}
+			fmt.Fprintf(w, "nonfunc structptr\n")
+		default:
+			f = []interface{}{fv}
+			fmt.Fprintf(w, "nonfunc slice\n")
+		}
 	default:
 		ft := reflect.FuncOf(ins, outs, false)
 		f = reflect.MakeFunc(ft, func(args []reflect.Value) []reflect.Value {
@@ -374,6 +404,10 @@ func randOpt(r *rng, vid *int) optSpec {
 	id := *vid
 	ty := r.intn(4)
 	val := mkValue(ty, id, -1).Interface()
+	if r.chance(1, 8) {
+		// a nil pointer is a value like any other (only the untyped nil is ignored)
+		ty, id, val = tyE0, 0, (*E0)(nil)
+	}
 	n := optNames[r.intn(len(optNames))]
 	st := optSubs[r.intn(len(optSubs))]
 	switch k := r.intn(20); {
@@ -579,6 +613,8 @@ func genResult(w *bufio.Writer, r *rng, id, size int) {
 			o := res.Out(i)
 			if p, ok := o.(*E0); ok && p == nil && i < len(desc) && desc[i] == "E:1" {
 				os = append(os, "1") // the typed nil pointer handed back as an ordinary output
+			} else if i < len(desc) && desc[i] == "C:0" && o == nil {
+				os = append(os, "777777") // a nil *E0 was returned: the output must be that typed nil, not an untyped one
 			} else {
 				os = append(os, fmt.Sprint(vidOf(reflect.ValueOf(o))))
 			}
@@ -603,5 +639,31 @@ func genResult(w *bufio.Writer, r *rng, id, size int) {
 			es = "other"
 		}
 	}
-	fmt.Fprintf(w, "impl len=%d err=%s out=%s executed=%v\nend\n", ln, es, strings.Join(os, ","), executed)
+	fmt.Fprintf(w, "impl len=%d err=%s out=%s executed=%v\n", ln, es, strings.Join(os, ","), executed)
+	// loading the result into the function's own output set must leave the result as it is (and work twice)
+	fr := "skip"
+	if e == nil && ln > 0 {
+		fr = "intact"
+		if recovered(func() {
+			for k := 0; k < 2; k++ {
+				if err := fn.Output().FromResult(res); err != nil {
+					fr = "err"
+					return
+				}
+				for i := 0; i < ln && i < len(os); i++ {
+					o := res.Out(i)
+					if o != nil && reflect.TypeOf(o) != outs[i] && !(outs[i].Kind() == reflect.Interface && reflect.TypeOf(o).Implements(outs[i])) {
+						fr = fmt.Sprintf("out%d_became_%s", i, strings.ReplaceAll(reflect.TypeOf(o).String(), " ", "_"))
+						return
+					}
+				}
+			}
+		}) {
+			fr = "panic"
+		}
+	}
+	if len(fr) > 60 {
+		fr = fr[:60]
+	}
+	fmt.Fprintf(w, "fr %s\nend\n", tildeOnly(fr))
 }
